@@ -7,6 +7,8 @@ From TS Require Import Spec.Serde Spec.TargetOsRule Spec.C03Spec.
 From TS Require Proofs.FrontItems Proofs.C03 Proofs.C03_TS Proofs.C03_Kotlin Proofs.C03_Swift Proofs.C03_Scala Proofs.C03_Go
                 Proofs.C03_Python Proofs.C03_Witness Proofs.C03Src Proofs.C03E2E Proofs.C03_All.
 Import ListNotations.
+From TS Require Import Model.MultiFile.
+From TS Require Proofs.C12Multi Proofs.C12MultiTS Proofs.C12MultiSwift Proofs.C12MultiGo Proofs.MultiSameItems.
 Definition parse_leaf (uc : unicode) (tstr : str -> option ty) (T : list str) (it : item) : outcome ritem :=
   match it with
   | IStruct a i g fs => parse_struct uc tstr T a i g fs
@@ -194,3 +196,38 @@ Goal forall (uc : unicode), unicode_ok uc -> forall (tstr : str -> option ty) (T
   good_C03_src_file uc T Python f (map c03_sig_of (fd_decls fd)) = true.
 Proof. exact Props.C03.C03_end_to_end_Python. Qed.
 Print Assumptions Props.C03.C03_end_to_end_Python.
+Goal forall uc cfg st pd ds st',
+  Proofs.C12MultiTS.ts_multi_decls uc cfg st pd = Ok (ds, st') ->
+  exists fd, ts_file_decls uc cfg pd = Ok fd /\ fd_decls fd = map ts_obs ds /\ good_C03_file TypeScript pd fd = true.
+Proof. exact Props.C03.C03_multi_back_TypeScript. Qed.
+Print Assumptions Props.C03.C03_multi_back_TypeScript.
+Goal forall uc cfg c im pd text,
+  kt_generate_multi uc cfg c im pd = Ok text -> dom_C03_file pd = true ->
+  exists ds fd, kt_decls uc cfg pd = Ok ds /\ kt_file_decls uc cfg pd = Ok fd /\ fd_decls fd = map kt_obs ds /\
+                good_C03_file Kotlin pd fd = true.
+Proof. exact Props.C03.C03_multi_back_Kotlin. Qed.
+Print Assumptions Props.C03.C03_multi_back_Kotlin.
+Goal forall uc cfg st pd ds st',
+  Proofs.C12MultiSwift.sw_multi_decls uc cfg st pd = Ok (ds, st') -> dom_C03_file pd = true ->
+  exists fd st0, sw_file_decls uc cfg pd = Ok fd /\
+                 fd_decls fd = flat_map sw_obs ds ++ flat_map sw_obs (sw_trailing_decls cfg st0) /\
+                 good_C03_file Swift pd fd = true.
+Proof. exact Props.C03.C03_multi_back_Swift. Qed.
+Print Assumptions Props.C03.C03_multi_back_Swift.
+Goal forall uc cfg pd text,
+  sc_generate uc cfg pd = Ok text -> dom_C03_file pd = true -> known_C03_file uc Scala pd = None ->
+  exists objs pkgs fd, sc_decls uc cfg pd = Ok (objs, pkgs) /\ sc_file_decls uc cfg pd = Ok fd /\
+                       fd_decls fd = flat_map sc_obs (objs ++ pkgs) /\ good_C03_file Scala pd fd = true.
+Proof. exact Props.C03.C03_multi_back_Scala. Qed.
+Print Assumptions Props.C03.C03_multi_back_Scala.
+Goal forall uc cfg st pd ds st',
+  Proofs.C12MultiGo.go_multi_decls uc cfg st pd = Ok (ds, st') ->
+  exists fd, go_file_decls uc cfg pd = Ok fd /\ fd_decls fd = flat_map go_obs ds /\ good_C03_file Go pd fd = true.
+Proof. exact Props.C03.C03_multi_back_Go. Qed.
+Print Assumptions Props.C03.C03_multi_back_Go.
+Goal forall uc cfg st pd ds st',
+  Proofs.C12Multi.py_multi_decls uc cfg st pd = Ok (ds, st') -> dom_C03_file pd = true -> known_C03_file uc Python pd = None ->
+  exists fd helpers, py_file_decls uc cfg pd = Ok fd /\
+                     fd_decls fd = map py_helper_decl helpers ++ flat_map py_obs ds /\ good_C03_file Python pd fd = true.
+Proof. exact Props.C03.C03_multi_back_Python. Qed.
+Print Assumptions Props.C03.C03_multi_back_Python.
